@@ -205,6 +205,59 @@ INFO.update({
         strengthening="initial states were absent / set; 'set to the empty string' added"),
 })
 
+
+INFO.update({
+    'r3-C01': dict(change="dtype_to_struct: the enum type name in the struct member line is no longer upper-cased (the typedef line still is)",
+                   needs="an enum whose type name contains a lower-case letter", caught_by="misc enum (type name chosen by the solver among upper / mixed / lower case)",
+                   initially_missed=True, strengthening="the enum type name was the fixed 'ETYPE'; it is now a solver choice among three spellings"),
+    'r3-C02': dict(change="yanny.type(): only the first `<`..`>` pair of a legacy array declaration is rewritten",
+                   needs="a 2-D char column declared with legacy <n> on both dimensions and a string longer than the array count, record mode",
+                   caught_by="layout legacy-angle (tags<2><4> holding 3- and 4-character strings)", initially_missed=True,
+                   strengthening="the strings in the 2-D legacy column were never longer than its array count; they now are"),
+    'r3-C03': dict(change="yanny.write: `self.filename = newfile` moved in front of the existence check",
+                   needs="a refused write to an existing file followed by a non-empty append",
+                   caught_by="history op write-over-existing (object still bound to its own file)", initially_missed=False),
+    'r3-C04': dict(change="spherematch: both maxmatch passes use a test-and-increment helper joined by `and` (a rejected pair consumes a slot of its first-list point)",
+                   needs="maxmatch > 0 and a contested match whose loser has another candidate", caught_by="spherematch 2x2 maxmatch=1 (greedy characterisation)", initially_missed=False),
+    'r3-C05': dict(change="chunks.friendsoffriends second pass: renumbering by a precomputed cumsum of roots with a single-hop lookup",
+                   needs="a component spanning >= 4 chunk groups merged in a particular order next to an unrelated group",
+                   caught_by="spheregroup chain obligations (symbolic chunk order)", initially_missed=False),
+    'r3-C06': dict(change="sdss_specobjid: MJD branches merged into an in-place `mjd -= 50000` (the caller's array is overwritten)",
+                   needs="an array MJD argument used again after the call", caught_by="specobjid array (the array arguments are not modified)", initially_missed=True,
+                   strengthening="nothing looked at the arguments after the call; 'arguments unchanged' is now asserted"),
+    'r3-C07': dict(change="set_maskbits: 'group already in cache' test replaced by 'same flag as the previous row'",
+                   needs="a maskbits file in which the rows of one group are not contiguous", caught_by="flagval / errors with the row order a solver choice", initially_missed=True,
+                   strengthening="generated files listed each group's rows together; an interleaved order is now a solver choice"),
+    'r3-C08': dict(change="bspline.__init__: the 'highest breakpoint does not cover' fix-up became `elif`",
+                   needs="breakpoints that miss the data range at both ends", caught_by="construct bkpt (symbolic breakpoints and data)", initially_missed=False),
+    'r3-C09': dict(change="cholesky_band: fallback localisation loop `range(n-1)`", needs="a matrix that is non-positive-definite only at its last leading minor",
+                   caught_by="cholesky_band n=2 bw=2 (symbolic matrix)", initially_missed=False),
+    'r3-C10': dict(change="iterfit: the rejection pass is skipped once the iteration budget is used up", needs="rejection still making progress at maxiter (e.g. maxiter=0 with an outlier)",
+                   caught_by="iterfit maxiter=0 (mask of the documented procedure)", initially_missed=False),
+    'r3-C11': dict(change="preprocess_spectra: in-place `rowloglam -= logshift[iobj]` (shifts accumulate across objects)",
+                   needs="one 1-D loglam shared by >= 2 objects, an earlier object with z != 0", caught_by="preprocess_spectra nobj=2", initially_missed=False,
+                   note="found symbolically from the start; the replay branch for this obligation was missing and was added"),
+    'r3-C12': dict(change="ManglePolygon keyword constructor: `if 'use_caps' in kwargs` -> `if kwargs.get('use_caps')`", needs="an explicit use_caps=0 on a polygon with caps",
+                   caught_by="is_in_polygon caps=1 (use_caps symbolic, includes 0)", initially_missed=False),
+    'r3-C13': dict(change="func_fit: in-place `finalarr *= (invvar > 0)` zeroes the basis columns of zero-weight points", needs="a zero-weight point, no fixed parameter, yfit read at that point",
+                   caught_by="func_fit w=zero (returned fit = basis times coefficients)", initially_missed=False),
+    'r3-C14': dict(change="rebin shrink with sample: picks the sample nearest the block centre instead of the first", needs="sample=True and a shrink factor >= 3",
+                   caught_by="rebin (3,)->(1,) sample=1", initially_missed=False),
+    'r3-C15': dict(change="computechi2.chi2 multiplies the cached yfit by sqivar in place", needs="chi2 and yfit both read on one result object, non-unit weights",
+                   caught_by="computechi2 2 parameters (fitted values = A x)", initially_missed=False,
+                   note="found symbolically from the start; the replay read yfit before chi2 and was corrected to the order of the symbolic run"),
+    'r3-C16': dict(change="readspec: loglam0 cached across the plate-MJD loop unless NAXIS1 changes", needs="two plate-MJD files with equal pixel count and different COEFF0/COEFF1",
+                   caught_by="readspec n=2 (loglam = COEFF0 + COEFF1*pixel)", initially_missed=True,
+                   strengthening="the synthetic survey gave both MJDs of a plate the same wavelength solution; every file now has its own"),
+    'r3-C17': dict(change="skymask: the two flag tests accumulate a count instead of a 0/1 flag", needs="ngrow=0 and a pixel carrying both BADSKYCHI and REDMONSTER",
+                   caught_by="skymask 1x3 ngrow=0 (symbolic masks)", initially_missed=False),
+    'r3-C19': dict(change="sdssflux2ab: correction factor became a module constant that the ivar branch overwrites in place", needs="a call after an ivar=True call in the same process",
+                   caught_by="sdssflux2ab (repeated call gives the same answer)", initially_missed=True,
+                   strengthening="each form was called once; the flux and ivar forms are now called again after the others"),
+    'r3-C20': dict(change="window_score: the PHOTO_RESOLVE lookup moved between `del os.environ['PHOTO_CALIB']` and the try/finally", needs="PHOTO_CALIB set and PHOTO_RESOLVE unset",
+                   caught_by="window_score fault schedule (initial presence symbolic)", initially_missed=False),
+})
+
 RAN = ["in the scratch worktree: /venv/bin/python -m pytest -q -p no:cacheprovider (with the change)",
        "in the scratch worktree: /venv/bin/python _seed/demo.py with the change and after `git apply -R _seed/patch.diff`",
        "git -C /repo apply patch.diff; cd /verif && ./check <PID> --tier quick; git -C /repo checkout -- .",
@@ -219,12 +272,14 @@ def main():
             continue
         m = json.load(open(p))
         m.update({'breaks_property': m.get('property'), 'change': info['change'], 'needs_to_manifest': info['needs'],
-                  'origin': ('independent sub-agent given only the property text and a scratch worktree of /repo' if not name.startswith('r2-') else
-                             'second round: independent sub-agent given the property text, a scratch worktree of /repo and one sentence naming '
+                  'origin': ('independent sub-agent given only the property text and a scratch worktree of /repo' if not name.startswith(('r2-', 'r3-')) else
+                             'later round: independent sub-agent given the property text, a scratch worktree of /repo and one sentence naming '
                              'which clause / function of the property to change, so that it differs from the first round'),
                   'ran': RAN, 'caught_by': info['caught_by'], 'initially_missed': info['initially_missed']})
         if info.get('strengthening'):
             m['strengthening'] = info['strengthening']
+        if info.get('note'):
+            m['note'] = info['note']
         json.dump(m, open(p, 'w'), indent=1)
         open(p, 'a').write('\n')
     return 0
